@@ -1377,6 +1377,19 @@ class Authenticated(BaseClientHandler):
         finally:
             self.idling = idling
 
+    ####################################################################
+    #
+    def _no_expunges_while_waiting(self, cmd: IMAPClientCommand) -> None:
+        """
+        A FETCH, STORE or SEARCH by message sequence numbers checks for
+        pending EXPUNGEs before it queues up on the mailbox. If another
+        client's EXPUNGE ran while it was waiting for its turn, the sequence
+        numbers the client sent no longer mean the messages it meant, and we
+        can not tell it (no EXPUNGE during these commands): refuse.
+        """
+        if not cmd.uid_command and self.pending_expunges():
+            raise No("There are pending EXPUNGEs.")
+
     ##################################################################
     #
     async def do_search(self, cmd: IMAPClientCommand) -> None:
@@ -1413,6 +1426,7 @@ class Authenticated(BaseClientHandler):
                 raise No("There are pending untagged responses")
 
         async with cmd.ready_and_okay(self.mbox):
+            self._no_expunges_while_waiting(cmd)
             try:
                 results = await self.mbox.search(
                     cmd.search_key, cmd.uid_command, cmd.timeout_cm
@@ -1484,6 +1498,7 @@ class Authenticated(BaseClientHandler):
 
         try:
             async with cmd.ready_and_okay(self.mbox):
+                self._no_expunges_while_waiting(cmd)
                 msg_set = (
                     sorted(cmd.msg_set_as_set) if cmd.msg_set_as_set else []
                 )
@@ -1576,6 +1591,7 @@ class Authenticated(BaseClientHandler):
         #
         try:
             async with cmd.ready_and_okay(self.mbox):
+                self._no_expunges_while_waiting(cmd)
                 msg_set = (
                     sorted(cmd.msg_set_as_set) if cmd.msg_set_as_set else []
                 )
